@@ -8,6 +8,7 @@ export GOFLAGS=-mod=mod GOPROXY=off GOSUMDB=off
 for d in seeded/${1:-*}/; do
   [ -f $d/meta.json ] || continue
   id=$(basename $d)
+  if [ "$(jq -r '.superseded // false' $d/meta.json)" = "true" ]; then echo "$id SUPERSEDED (see meta.json: a later fix in /repo made this change harmless)"; continue; fi
   dest=$(jq -r .confirmed.demonstration_dest $d/meta.json); cmd=$(jq -r .confirmed.demonstration_command $d/meta.json)
   checks=$(jq -r '.detected_by|join(" ")' $d/meta.json)
   WT=/tmp/sm_$id; git -C /repo worktree remove --force $WT 2>/dev/null; git -C /repo worktree add -q $WT HEAD || { echo "$id WORKTREE-FAILED"; continue; }
